@@ -151,7 +151,7 @@ struct PeerConn {
     // After the handshake a real peer reads and writes concurrently. The scripted peer does the same:
     // a reader fiber of its process drains the socket into an inbox, so that a blocking send can never
     // deadlock against the node's own blocking reply.
-    struct Rx { std::deque<std::vector<std::uint8_t>> frames; bool closed = false; std::string error; };
+    struct Rx { std::deque<std::vector<std::uint8_t>> frames; std::deque<std::int64_t> times; bool closed = false; std::string error; };
     std::shared_ptr<Rx> rx;
     std::int64_t timeout_ms = 5000;
 
@@ -241,6 +241,7 @@ struct PeerConn {
                 auto f = c.recv_plain_direct();
                 if (!f) { state->closed = true; state->error = c.last_error; return; }
                 state->frames.push_back(std::move(*f));
+                state->times.push_back(sk::now_ns());
             }
         });
     }
@@ -249,7 +250,7 @@ struct PeerConn {
         if (rx) {
             auto state = rx;
             sk::wait_until([state] { return !state->frames.empty() || state->closed; }, timeout_ms * kMs);
-            if (!state->frames.empty()) { auto f = std::move(state->frames.front()); state->frames.pop_front(); return f; }
+            if (!state->frames.empty()) { auto f = std::move(state->frames.front()); state->frames.pop_front(); if (!state->times.empty()) state->times.pop_front(); return f; }
             last_error = state->closed ? "closed: " + state->error : "timeout";
             return std::nullopt;
         }
